@@ -114,6 +114,14 @@ async fn one_config(ctx: &Ctx, out: &mut Outcome, ci: usize, l1: usize, l2: Opti
             let key = format!("t/data/cfg{}/chunk_{}_{}_{}.parquet", ci, seed, shard, k);
             let n = size_of(&key, &sizes_w);
             let _ = w_inner.put(&Path::from(key.as_str()), prf(&key, n).into()).await;
+            // every third object has a twin with the same file name in another directory (and other content):
+            // whatever a tier is keyed by must tell them apart
+            if k % 3 == 0 {
+                let twin = format!("t/data/cfg{}/twin/chunk_{}_{}_{}.parquet", ci, seed, shard, k);
+                let tn = size_of(&twin, &sizes_w);
+                let _ = w_inner.put(&Path::from(twin.as_str()), prf(&twin, tn).into()).await;
+                w_written.lock().push(twin);
+            }
             w_written.lock().push(key);
             if k % 8 == 0 {
                 tokio::task::yield_now().await;
